@@ -1184,13 +1184,80 @@ def elf_opaque_ranges(raw):
     return out
 
 
+def elf_note_ranges(raw, data):
+    """SHT_NOTE sections whose bytes lie in the file, overlap no header table and no other section, and begin with a
+    well-formed note record (gABI: namesz, descsz, type, name padded to 4, descriptor) with a non-empty descriptor.
+    -> [(file offset, size, section index, offset of the first descriptor in the section, its length)]"""
+    eh = raw["ehdr"]
+    out = []
+    for idx, s in enumerate(raw["shdrs"]):
+        if s["type"] != 7 or s["size"] < 13:
+            continue
+        lo, hi = s["offset"], s["offset"] + s["size"]
+        if hi > len(data):
+            continue
+        reserved = [(0, eh["ehsize"])]
+        if eh["phnum"]:
+            reserved.append((eh["phoff"], eh["phoff"] + eh["phnum"] * eh["phentsize"]))
+        if eh["shnum"] and eh["shoff"]:
+            reserved.append((eh["shoff"], eh["shoff"] + eh["shnum"] * eh["shentsize"]))
+        for j, t in enumerate(raw["shdrs"]):
+            if j != idx and t["type"] not in (0, 8) and t["size"]:
+                reserved.append((t["offset"], t["offset"] + t["size"]))
+        if any(lo < b and a < hi for a, b in reserved):
+            continue
+        namesz, descsz, _ = struct.unpack_from(raw["endian"] + "III", data, lo)
+        doff = 12 + ((namesz + 3) & ~3)
+        if descsz < 1 or doff + descsz > s["size"]:
+            continue
+        out.append((lo, s["size"], idx, doff, descsz))
+    return out
+
+
+def elf_virt_runs(raw, opaque=None):
+    """Runs of >= 2 opaque allocated PROGBITS sections of a linked file that follow each other without gap in the
+    address space (next.addr == prev.addr + prev.size), none of whose addresses belongs to any other section header
+    (so an address resolves to exactly one section whatever the lookup order).
+    -> [[(file offset, size, section index, addr), ...], ...]"""
+    if raw["ehdr"]["type"] == 1:
+        return []
+    if opaque is None:
+        opaque = elf_opaque_ranges(raw)
+    shdrs = raw["shdrs"]
+    cands = []
+    for lo, size, idx in opaque:
+        sh = shdrs[idx]
+        if sh["type"] != 1 or not (sh["flags"] & 2) or sh["addr"] == 0:
+            continue
+        a, b = sh["addr"], sh["addr"] + size
+        if any(j != idx and t["size"] and t["addr"] < b and a < t["addr"] + t["size"] for j, t in enumerate(shdrs)):
+            continue
+        cands.append((lo, size, idx, sh["addr"]))
+    cands.sort(key=lambda c: c[3])
+    runs = []
+    cur = []
+    for c in cands:
+        if cur and cur[-1][3] + cur[-1][1] == c[3]:
+            cur.append(c)
+        else:
+            if len(cur) >= 2:
+                runs.append(cur)
+            cur = [c]
+    if len(cur) >= 2:
+        runs.append(cur)
+    return runs
+
+
 # ---------------------------------------------------------------------------------------------
 # ELF corpus (compiled on the spot)
 
 
-def gen_c_source(seed, freestanding=False, imports=True):
+def gen_c_source(seed, freestanding=False, imports=True, sections=False):
     """A small deterministic C translation unit: globals (data, bss, rodata, pointers needing relocations),
-    static and global functions, calls to undefined externals (imports)."""
+    static and global functions, calls to undefined externals (imports).
+    sections=True: additionally 3..6 writable and 0 or 3..4 read-only byte arrays of 1..40 bytes, each in a section
+    of its own with alignment 1 (the linker lays such sections out back to back: runs of address-contiguous
+    PROGBITS sections); some sizes are repeated on purpose (sections of equal size)."""
     import random
     rnd = random.Random(seed)
     nfun = rnd.randint(1, 5)
@@ -1232,6 +1299,17 @@ def gen_c_source(seed, freestanding=False, imports=True):
         body.append("sink = r;")
         body.append("return r;")
         lines.append("%sint f%d(int x) { %s }" % (st, i, " ".join(body)))
+    if sections:
+        r2 = random.Random("%s-sections" % (seed,))
+        for prefix, qual, n in ((".sec_", "", r2.randint(3, 6)), (".rsec_", "const ", r2.choice([0, 3, 4]))):
+            sizes = [r2.randint(1, 40) for _ in range(n)]
+            for i in range(1, n):
+                if r2.random() < 0.4:
+                    sizes[i] = sizes[r2.randrange(i)]
+            for i, sz in enumerate(sizes):
+                lines.append("__attribute__((section(\"%s%c\"), aligned(1), used)) %sunsigned char %s%d[%d] = {%s};"
+                             % (prefix, ord("a") + i, qual, "rs" if qual else "ws", i, sz,
+                                ",".join(str(r2.randint(1, 255)) for _ in range(sz))))
     lines.append("int entry_point(int a) { return f%d(a) + f0(a + 1); }" % (nfun - 1))
     if freestanding:
         lines.append("void _start(void) { entry_point(3); for (;;) ; }")
@@ -1249,8 +1327,9 @@ def _run(cmd, cwd):
     return p.returncode, p.stdout.decode("utf-8", "replace")
 
 
-def elf_recipes():
-    """(label, kind, command template, needs_imports, freestanding).  {src} {out} are substituted."""
+def elf_recipes(extra=False):
+    """(label, kind, command template, needs_imports, freestanding[, custom sections]).  {src} {out} are substituted.
+    extra=True appends the recipes whose source puts byte arrays in sections of their own (gen_c_source(sections=True))."""
     r = []
     for opt in ("-O0", "-O2", "-Os"):
         r.append(("gcc64-c" + opt, "rel", ["gcc", opt, "-c", "{src}", "-o", "{out}"], True, False))
@@ -1269,18 +1348,25 @@ def elf_recipes():
         r.append(("clang-be-" + t, "rel", ["clang", "--target=" + t, "-O1", "-ffreestanding", "-fno-builtin", "-c", "{src}", "-o", "{out}"], True, False))
     for t in LE_TRIPLES:
         r.append(("clang-le-" + t, "rel", ["clang", "--target=" + t, "-O1", "-ffreestanding", "-fno-builtin", "-c", "{src}", "-o", "{out}"], True, False))
+    if extra:
+        r.append(("gcc64-static-secs", "exec", ["gcc", "-O1", "-nostdlib", "-static", "-no-pie", "{src}", "-o", "{out}"], False, True, True))
+        r.append(("gcc32-static-secs", "exec", ["gcc", "-m32", "-O1", "-nostdlib", "-static", "-no-pie", "{src}", "-o", "{out}"], False, True, True))
+        r.append(("gcc64-static-pie-secs", "dyn", ["gcc", "-O1", "-nostdlib", "-static-pie", "{src}", "-o", "{out}"], False, True, True))
+        r.append(("gcc64-shared-secs", "dyn", ["gcc", "-O1", "-shared", "-fPIC", "-nostdlib", "{src}", "-o", "{out}"], True, False, True))
+        r.append(("gcc64-c-secs", "rel", ["gcc", "-O1", "-c", "{src}", "-o", "{out}"], True, False, True))
     return r
 
 
-def build_elf_corpus(scratch, seed, picks, res=None):
+def build_elf_corpus(scratch, seed, picks, res=None, extra=False):
     """Compile recipes[picks[i]] on a source derived from (seed, i).  -> [(label, kind, bytes, source)].
     Recipes the local toolchain cannot build are dropped (counted in res.dropped)."""
-    recipes = elf_recipes()
+    recipes = elf_recipes(extra)
     out = []
     for n, pi in enumerate(picks):
-        label, kind, cmd, imports, freestanding = recipes[pi % len(recipes)]
+        rec = recipes[pi % len(recipes)]
+        label, kind, cmd, imports, freestanding = rec[:5]
         src_seed = "%s-%d-%d" % (seed, n, pi)
-        src = gen_c_source(src_seed, freestanding=freestanding, imports=imports)
+        src = gen_c_source(src_seed, freestanding=freestanding, imports=imports, sections=len(rec) > 5 and rec[5])
         sname = "s%d.c" % n
         oname = "o%d.bin" % n
         with open(os.path.join(scratch, sname), "w") as f:
